@@ -161,6 +161,9 @@ class Engine(ExprMixin, CallMixin, SpecMixin, StmtMixin):
         if a is None:
             a = z3.Const("H0." + name, sort)
             self._heap0[name] = a
+            if name.startswith("L.") and name.endswith(".len"):
+                r = z3.Int("r!h0")
+                self.facts.append(z3.ForAll([r], a[r] >= 0, patterns=[a[r]]))
             if name.startswith("D.") and name.endswith(".val"):
                 ks = sort.range().domain()
                 vs = sort.range().range()
@@ -169,7 +172,7 @@ class Engine(ExprMixin, CallMixin, SpecMixin, StmtMixin):
                 r = z3.Int("r!h0")
                 k = z3.Const("k!h0", ks)
                 dflt = z3.IntVal(-1) if name.split(".")[2] == "ref" else default_of(vs)
-                self.facts.append(z3.ForAll([r, k], z3.Implies(z3.Not(dom[r][k]), a[r][k] == dflt)))
+                self.facts.append(z3.ForAll([r, k], z3.Implies(z3.Not(dom[r][k]), a[r][k] == dflt), patterns=[a[r][k]]))
         return a
 
     def heap0_existing(self, name):
@@ -200,6 +203,8 @@ class Engine(ExprMixin, CallMixin, SpecMixin, StmtMixin):
         self.called = set()
         self.facts = []
         self._heap0 = {}
+        for _n, _b, _t in self.reg.z3axioms:
+            self.facts.extend(_b(self))
         self.cur_contract = c
         self.cur_qual = c.qualname
         parts = c.qualname.split(".")
@@ -466,8 +471,21 @@ def discharge(ob, rlimit=0, timeout_ms=2500, use_cvc5=True, long_ms=20000):
     return ob
 
 
-def check_satisfiable(hyps, timeout_ms=10000):
+def check_satisfiable(hyps, timeout_ms=3000):
+    """vacuity guard: the preconditions (and global facts) must be satisfiable"""
+    from .binst import bounded_check
     s = z3.Solver()
     s.set("timeout", timeout_ms)
     s.add(*hyps)
-    return str(s.check())
+    r = str(s.check())
+    if r == "unknown":
+        try:
+            br, _, _ = bounded_check(hyps, z3.BoolVal(False), timeout_ms=5000)
+        except z3.Z3Exception:
+            br = "unknown"
+        if br == "sat":
+            return "sat(bounded-instantiation)"
+        if br == "unsat":
+            return "unsat"
+        return "not-refuted"  # the prover cannot derive False from the preconditions
+    return r
